@@ -26,6 +26,12 @@ type schedPlan struct {
 	Total   int64 // points seen (for enumerating "every point")
 	applied []string
 	skipped int
+
+	// select statements with several ready cases: Go picks one at random, so every alternative is
+	// a legal execution. SelAlt[k] = case to take at the k-th such select (default 0).
+	SelAlt   map[int]int
+	selCount int
+	SelSeen  []int // number of ready cases at each multi-ready select
 }
 
 // Preempt implements vrt.Policy: park the running thread when a planned point is reached.
@@ -43,7 +49,15 @@ func (p *schedPlan) Preempt(t *vrt.Thread, op *vrt.Op) bool {
 	return false
 }
 
-func (p *schedPlan) ChooseSelect(t *vrt.Thread, site string, n int) int { return 0 }
+func (p *schedPlan) ChooseSelect(t *vrt.Thread, site string, n int) int {
+	k := p.selCount
+	p.selCount++
+	p.SelSeen = append(p.SelSeen, n)
+	if alt, ok := p.SelAlt[k]; ok && alt < n {
+		return alt
+	}
+	return 0
+}
 
 func (w *World) installPlan(steps []planStep) {
 	w.plan = &schedPlan{Steps: steps}
